@@ -160,6 +160,9 @@ impl<W: Write> RustWrite<W> {
     pub fn write_uses(&mut self, super_prefix: &str, grammar: &Grammar) -> io::Result<()> {
         // things the user wrote
         for u in &grammar.uses {
+            // Comments inside the item must not reach the output as they are: a leading one
+            // would hide the `super::` prefix and a trailing `//` one would swallow the `;`.
+            let u = &strip_comments(u);
             if u.starts_with("super::") {
                 rust!(self, "use {}{};", super_prefix, u);
             } else {
@@ -306,4 +309,42 @@ impl ParameterDisplay for &repr::Parameter {
     fn to_parameter_string(self) -> String {
         format!("{}: {}", self.name, self.ty)
     }
+}
+
+/// Remove `//` and (nested) `/* */` comments from the text of a `use` item.
+fn strip_comments(text: &str) -> String {
+    let mut out = String::with_capacity(text.len());
+    let mut chars = text.chars().peekable();
+    while let Some(c) = chars.next() {
+        if c == '/' && chars.peek() == Some(&'/') {
+            for c in chars.by_ref() {
+                if c == '\n' {
+                    out.push('\n');
+                    break;
+                }
+            }
+        } else if c == '/' && chars.peek() == Some(&'*') {
+            chars.next();
+            let mut depth = 1;
+            let mut prev = ' ';
+            while depth > 0 {
+                match chars.next() {
+                    Some('/') if prev == '*' => {
+                        depth -= 1;
+                        prev = ' ';
+                    }
+                    Some('*') if prev == '/' => {
+                        depth += 1;
+                        prev = ' ';
+                    }
+                    Some(c) => prev = c,
+                    None => break,
+                }
+            }
+            out.push(' ');
+        } else {
+            out.push(c);
+        }
+    }
+    out.trim().to_string()
 }
